@@ -189,7 +189,7 @@ def judge_call(b, svc, method, cmd, obs):
             out.append((sig, "%s: attribute %s sent as %r arrived as %r" % (name, show(path), s, g)))
     # C03
     if method.get("result") is not None and not (cmd["script"].get("error")):
-        want = canon(cmd["script"].get("result"))
+        want = canon(cmd["script"].get("expect_result", cmd["script"].get("result")))
         rlocs = {}
         chosen = chosen_response(method, cmd["script"].get("result"))
         for r0 in [chosen] if chosen else []:
@@ -290,6 +290,17 @@ def judge_call(b, svc, method, cmd, obs):
                     out.append(("response/%s/empty-string-is-absent" % rlocs[top], "%s: result attribute %s returned as \"\" is absent for the client" % (name, show(path))))
                     continue
                 out.append(("response/%s/%s" % (rlocs.get(top, "body"), type(s).__name__), "%s: result attribute %s returned as %r seen by the client as %r" % (name, show(path), s, g)))
+        # each attribute travels in the location the design assigns it, and only there: what a response carries in a header or a cookie
+        # is not repeated in the body
+        try:
+            wire_body = json.loads(w.get("resp_body") or "null")
+        except Exception:
+            wire_body = None
+        if isinstance(wire_body, dict) and 200 <= (w.get("status") or 0) < 300:
+            for k, loc in sorted(rlocs.items()):
+                if k in wire_body:
+                    out.append(("response/%s/attribute-also-in-body" % loc, "%s: result attribute %s is mapped to a response %s, the response body carries it too: %s" %
+                                (name, k, loc, (w.get("resp_body") or "")[:200])))
         want_status = 200
         if chosen:
             want_status = chosen["code"]
@@ -331,6 +342,17 @@ def commands_for(b, seed, per_method):
                                     res[mp["attr"]] = "any text"
                 cmds.append({"op": "call", "service": s["name"], "method": m["name"], "payload": p, "script": {"result": res}})
                 meta.append((s, m))
+                # a service that leaves its required arrays nil: the response still carries (and the client sees) empty lists
+                if k == 0 and isinstance(res, dict) and m.get("result") and b.schema.is_object(m["result"]):
+                    ra = b.schema.resolve(m["result"])
+                    rl = {mp["attr"] for r0 in (m.get("http") or {}).get("responses") or [] for mp in (r0.get("headers") or []) + (r0.get("cookies") or [])}
+                    arrs = [fn for fn, fa in b.schema.fields(m["result"]) if fn in (ra.get("required") or []) and fn not in rl
+                            and (b.schema.resolve(fa).get("type") or {}).get("array") and not b.schema.resolve(fa).get("has_default")
+                            and not ((b.schema.resolve(fa).get("val") or {}).get("minlen"))]
+                    if arrs:
+                        cmds.append({"op": "call", "service": s["name"], "method": m["name"], "payload": p,
+                                     "script": {"result": {kk: vv for kk, vv in res.items() if kk not in arrs}, "expect_result": dict(res, **{a: [] for a in arrs})}})
+                        meta.append((s, m))
     return cmds, meta
 
 
